@@ -759,6 +759,63 @@ def run(chk):
                 chk.instance(r_ao, key, sample=dict(function=f["q"], access=show(n)[:80]))
                 chk.violation(r_ao, key, "%s picks a record by position (`%s`); only the last record (back()) stands for the history" % (f["q"], show(n)[:80]), f["file"], n["l"])
 
+    # ---- C17.pending: an ASSIGN is applied once
+    r_pe = chk.rule("C17.pending", "UDQConfig keeps the quantities ASSIGNed since the last evaluation in a pending list: add_assign appends the quantity (under the test that the assignment exists), eval_assign(context) TAKES the list - after it the member is empty on every path that applies assignments (swap with a local declared empty, std::exchange with {}, or an unconditional clear()) - and applies the entries of the local it took; clear_pending_assignments clears it.  A list that is only copied is re-applied by every later evaluation of the same configuration and overwrites what DEFINE computed in between", floor=4)
+    cfx = chk.facts(["opm/input/eclipse/Schedule/UDQ/UDQConfig.cpp"])
+    PEND = "this.pending_assignments_"
+    ea = [f for f in cfx.fns if f["q"] == "Opm::UDQConfig::eval_assign" and f.get("body") and len(f["params"]) == 1]
+    aa = [f for f in cfx.fns if f["q"] == "Opm::UDQConfig::add_assign" and f.get("body")]
+    cp = [f for f in cfx.fns if f["q"] == "Opm::UDQConfig::clear_pending_assignments" and f.get("body")]
+    if len(ea) != 1 or not aa or len(cp) != 1:
+        raise core.AnalysisBroken("UDQConfig: eval_assign(context) / add_assign / clear_pending_assignments not found (%d, %d, %d)" % (len(ea), len(aa), len(cp)))
+    ea = ea[0]
+    top = stmt_list(ea["body"])
+    empties = {}
+    for st in top:
+        if st["k"] == "Decl":
+            for v in st["vars"]:
+                it = show(v["init"]) if isinstance(v.get("init"), dict) else ""
+                if re.fullmatch(r"std::vector<std::string>\{\{?\}?\}|std::vector<std::string>\(\)|", it) and "vector" in (v.get("t") or it):
+                    empties[v["n"]] = st["l"]
+    taken = None       # (local, how)
+    emptied = False
+    for st in top:
+        t = show(st)
+        m_ = re.fullmatch(r"%s\.swap\((\w+)\)" % re.escape(PEND), t) or re.fullmatch(r"(\w+)\.swap\(%s\)" % re.escape(PEND), t) or re.fullmatch(r"std::swap\(%s, (\w+)\)" % re.escape(PEND), t) or re.fullmatch(r"std::swap\((\w+), %s\)" % re.escape(PEND), t)
+        if m_ and m_.group(1) in empties:
+            taken, emptied = (m_.group(1), "swap with an empty local"), True
+        if st["k"] == "Decl":
+            for v in st["vars"]:
+                it = show(v["init"]) if isinstance(v.get("init"), dict) else ""
+                if re.fullmatch(r"std::exchange\(%s, .*\{\{?\}?\}\)" % re.escape(PEND), it):
+                    taken, emptied = (v["n"], "exchange"), True
+                elif PEND in it and not v.get("ref"):
+                    taken = (v["n"], "copy / move: %s" % it)
+        if t == "%s.clear()" % PEND:
+            emptied = True
+    loops = [st for st in top if st["k"] == "ForRange" and any(meth(x)[0] == "update_assign" for x in walk(st["body"]))]
+    over = show(strip(loops[0]["range"])) if len(loops) == 1 else None
+    chk.instance(r_pe, "eval_assign", sample=dict(taken=taken, member_emptied=emptied, loop_over=over))
+    if len(loops) != 1:
+        chk.violation(r_pe, "eval_assign", "UDQConfig::eval_assign: expected one loop that applies the pending assignments through update_assign, found %d" % len(loops), ea["file"], ea["l"])
+    elif not taken or over != taken[0]:
+        chk.violation(r_pe, "eval_assign", "UDQConfig::eval_assign applies the entries of `%s`; it must apply the list it took out of pending_assignments_ (%s)" % (over, taken), ea["file"], loops[0]["l"])
+    elif not emptied:
+        chk.violation(r_pe, "eval_assign", "UDQConfig::eval_assign leaves pending_assignments_ filled (%s): every later evaluation of this configuration re-applies the same ASSIGNs over the values DEFINE and UPDATE produced since" % taken[1], ea["file"], loops[0]["l"])
+    pushes = [(f, n) for f in aa for n in walk(f["body"]) if meth(n)[0] in ("push_back", "emplace_back") and show(strip(meth(n)[1] or {})) == PEND]
+    chk.instance(r_pe, "add_assign", sample=dict(appends=[show(n) for _, n in pushes]))
+    for f in aa:
+        qn = f["params"][0]["n"]
+        mine = [n for g, n in pushes if g is f]
+        if len(aa) and not any(show(n) == "%s.push_back(%s)" % (PEND, qn) for n in mine) and any(x.get("k") == "Switch" for x in walk(f["body"])):
+            chk.violation(r_pe, "add_assign", "UDQConfig::add_assign(%s, ...) does not append the quantity to pending_assignments_: the ASSIGN is never applied" % qn, f["file"], f["l"])
+    ct = [show(x) for x in stmt_list(cp[0]["body"])]
+    chk.instance(r_pe, "clear", sample=dict(body=ct))
+    if "%s.clear()" % PEND not in ct:
+        chk.violation(r_pe, "clear", "UDQConfig::clear_pending_assignments does not clear the list (%s)" % ct, cp[0]["file"], cp[0]["l"])
+    gd = [n for n in stmt_list(ea["body"]) if n["k"] == "If" and show(strip(n["cond"])) == "%s.empty()" % PEND]
+    chk.instance(r_pe, "guard", sample=dict(early_return=len(gd)))
+
     from verif import fallthrough
     fallthrough.run(chk, "C17", floor=11)
     from verif import argorder
